@@ -172,6 +172,21 @@ func c16Present(r *hx.Rand, l *hx.Line, c *c16Client, all []*c16Client) opbed.Au
 	return opbed.Auth{Kind: kind, ID: id, Secret: secret}
 }
 
+// c16ExtraFormClientID: a caller that authenticates with Basic auth may ALSO carry a client_id in the form (of
+// another registered client).  Basic auth takes precedence on both routers, so the request must be treated exactly
+// like the plain Basic one: the flow belongs to the authenticated client, never to the one named in the form.
+func c16ExtraFormClientID(r *hx.Rand, l *hx.Line, auth opbed.Auth, form url.Values, all []*c16Client) {
+	if auth.Kind != "basic" || !r.Chance(15) {
+		return
+	}
+	other := all[r.Intn(len(all))].c.ID
+	if other == auth.ID {
+		return
+	}
+	form.Set("client_id", other)
+	l.S("xcid", other)
+}
+
 type c16Dev struct {
 	code, userCode, client string
 }
@@ -314,6 +329,7 @@ func c16Stream(r *hx.Rand, tier string, n int, w *bufio.Writer) map[string]int {
 				l := base("auth")
 				auth := c16Present(r, l, c, cls)
 				form := url.Values{}
+				c16ExtraFormClientID(r, l, auth, form, cls)
 				var scopeList []string
 				if scopes != "" {
 					form.Set("scope", scopes)
@@ -416,6 +432,7 @@ func c16Stream(r *hx.Rand, tier string, n int, w *bufio.Writer) map[string]int {
 				if code != "" {
 					form.Set("device_code", code)
 				}
+				c16ExtraFormClientID(r, l, auth, form, cls)
 				req := bed.Form("/oauth/token", form, auth)
 				var cancel context.CancelFunc = func() {}
 				switch fault {
